@@ -167,12 +167,17 @@ func FetchV2(ctx context.Context, st storage.Storer, req *FetchRequest, round Fe
 	}
 	if req.Depth > 0 {
 		baseArgs.Deepen = req.Depth
-		shallows, err := st.Shallow()
-		if err != nil {
-			return err
-		}
-		baseArgs.Shallows = shallows
 	}
+
+	// A shallow repository announces its boundary on every fetch, not only
+	// when deepening: without the "shallow" lines the server assumes that
+	// every ancestor of a "have" is present and omits history behind the
+	// boundary that the wanted tips reach by another path.
+	shallows, err := st.Shallow()
+	if err != nil {
+		return err
+	}
+	baseArgs.Shallows = shallows
 
 	// Pop haves from a private copy so the caller's slice is left untouched.
 	remaining := append([]plumbing.Hash(nil), req.Haves...)
